@@ -331,7 +331,8 @@ def s_astype(rng, ins):
     df = ins[0].pd
     ints = cols_of_kind(df, "iu")
     fl = cols_of_kind(df, "f")
-    cands = [(c, "float64") for c in ints] + [(c, "float32") for c in fl] + [(c, "int64") for c in cols_of_kind(df, "b")]
+    # no float32: single-precision summation order is precision noise, not a property
+    cands = [(c, "float64") for c in ints] + [(c, "int64") for c in cols_of_kind(df, "b")] + [(c, "category") for c in cols_of_kind(df, "O")[:1]]
     if not cands:
         return None
     c, t = rng.choice(cands)
